@@ -1139,6 +1139,79 @@ INJECTORS = [inj_shuffle, inj_width, inj_trunc_signed, inj_capacity, inj_attr_na
              inj_name_length, inj_const_value]
 
 
+# ----------------------------------------------------------------------------------------------------------------
+# hostile stream: statement soups (no skeleton; any statement, any parameter from boundary-heavy pools, any order)
+
+SOUP_NAMES = ["a", "b", "A", "x1", "_", "a_", "value", "q1", "uint8_t", "int", "Bool", "com1", "_x_", "float", "lpt10", "c", "d"]
+SOUP_WIDTHS = [0, 1, 2, 7, 8, 16, 17, 32, 33, 63, 64, 65]
+SOUP_CAPS = [-1, 0, 1, 2, 3, 255, 256, 2 ** 64 - 1, 2 ** 64, 2 ** 64 + 1]
+SOUP_VALUES = [None, ["bool", True], ["bool", False], ["rat", 0, 1], ["rat", 8, 1], ["rat", 64, 1], ["rat", 72, 1], ["rat", 144, 2],
+               ["rat", 1, 2], ["rat", -8, 1], ["rat", 1, 0], ["str", "a"], ["str", "ab"], ["set"], ["rat", 255, 1], ["rat", 256, 1],
+               ["rat", 1024, 1], ["rat", 100000, 1]]
+
+
+def soup_sx(rng, refs):
+    r = rng.random()
+    if r < 0.12 and refs:
+        return list(rng.choice(refs))
+    if r < 0.2:
+        return ["bool"]
+    if r < 0.3:
+        return rng.choice([["byte"], ["utf8"]])
+    if r < 0.4:
+        return ["void", rng.choice(SOUP_WIDTHS)]
+    k = rng.choice(["uint", "uint", "int", "float"])
+    return [k, rng.choice(SOUP_WIDTHS), rng.choice(["sat", "sat", "trunc"]), rng.random() < 0.3]
+
+
+def soup_tx(rng, refs):
+    s = soup_sx(rng, refs)
+    r = rng.random()
+    if r < 0.5:
+        return ["s", s]
+    return [rng.choice(["fix", "vari", "vare"]), s, rng.choice(SOUP_CAPS)]
+
+
+def soup_stmt(rng, refs):
+    r = rng.random()
+    if r < 0.3:
+        return ["field", soup_tx(rng, refs), rng.choice(SOUP_NAMES)]
+    if r < 0.38:
+        return ["pad", rng.choice(SOUP_WIDTHS)]
+    if r < 0.5:
+        v = rng.choice(SOUP_VALUES[1:])
+        return ["const", soup_tx(rng, []) if rng.random() < 0.2 else ["s", soup_sx(rng, [])], rng.choice(SOUP_NAMES), v]
+    d = rng.choice(["union", "deprecated", "sealed", "sealed", "extent", "extent", "assert", "print", "foo"])
+    if d in ("union", "deprecated", "sealed"):
+        v = None if rng.random() < 0.9 else rng.choice(SOUP_VALUES)
+    elif d == "assert":
+        v = ["bool", True] if rng.random() < 0.7 else rng.choice(SOUP_VALUES)
+    elif d == "extent":
+        v = rng.choice(SOUP_VALUES) if rng.random() < 0.8 else ["auto", rng.choice([0, 0, 8, -8, 4])]
+    else:
+        v = rng.choice(SOUP_VALUES)
+    return ["dir", d, v]
+
+
+def gen_soup(rng):
+    service = rng.random() < 0.4
+    ident, allow = gen_ident(rng, service)
+    deps = [gen_dep(rng, ident, k, rng.random() < 0.4, service=rng.random() < 0.15) for k in range(rng.choice([0, 0, 1, 2]))]
+    refs = [dep_ref(rng, ident, d) for d in deps]
+    nsec = 2 if service else 1
+    if rng.random() < 0.03:
+        nsec = 3
+    secs = [[soup_stmt(rng, refs) for _ in range(rng.choice([0, 1, 2, 2, 3, 4, 5, 7]))] for _ in range(nsec)]
+    # most soups would fail for lack of a mode: give most sections one, at a random place
+    for sec in secs:
+        if rng.random() < 0.6 and not any(s[0] == "dir" and s[1] in ("sealed", "extent") for s in sec):
+            sec.insert(rng.randrange(len(sec) + 1), ["dir", "sealed", None] if rng.random() < 0.5 else ["dir", "extent", ["auto", 0]])
+    case = {"id": ident, "allow": allow, "deps": deps, "sections": secs, "tags": ["soup"],
+            "ending": rng.choice(["nl", "none", "comment"]), "api": "namespace" if rng.random() < 0.8 else "files",
+            "decor": rng.choice(["plain", "plain", "comments", "blank", "crlf"])}
+    return finish(rng, case)
+
+
 def finish(rng, case):
     fix_extents(rng, case)
     return case
@@ -1326,6 +1399,9 @@ def generate(rng, tier):
             c = gen_planted(rng, nviol)
         cases.append(c)
         streams.append("random")
+    for _ in range(900 if tier == "quick" else 12000):
+        cases.append(gen_soup(rng))
+        streams.append("hostile")
     return cases, streams
 
 
@@ -1343,7 +1419,9 @@ def describe(case, obs):
     if not tags:
         keys.append("planted=0:" + v)
     for t in tags:
-        if t.startswith("boundary:"):
+        if t == "soup":
+            keys.append("soup:" + v)
+        elif t.startswith("boundary:"):
             keys.append("boundary:" + t.split(":")[1] + ":" + v)
         else:
             keys.append("planted:" + t.split(":")[0] + ":" + v)
@@ -1387,12 +1465,16 @@ RULE = ("a case is one definition in abstract form (identity, statements per sec
         "with its dependencies into a scratch root namespace (plus lookup namespaces) and read with read_namespace (80 %) or "
         "read_files (20 %), allow_unregulated_fixed_port_id both ways; streams: boundary neighbours of every numeric rule and every "
         "reserved name/pattern with near misses (targeted), the grid message/service x structure/union x deps x deprecated of valid "
-        "skeletons, and skeletons with 0, 1 or 2 planted violations out of 23 categories (plus random permutations of a section) at random positions (random); "
+        "skeletons, and skeletons with 0, 1 or 2 planted violations out of 23 categories (plus random permutations of a section) at random positions (random), and statement soups without any skeleton (hostile); "
         "non-trivial = at least two statements; distinct = by hash of the case")
-THEOREMS_NOTE = "C05_iff: accept env d = true <-> Valid env d; the comparer checks implementation verdict = accept and rejection class = InvalidDefinitionError"
+THEOREMS_NOTE = ("C05_iff: accept env d = true <-> Valid env d (C05_handlers: the statement handlers succeed iff the positional rules hold; "
+                 "C05_names: name_ok = identifier syntax minus the reserved set; C05_boundaries_*: the verdict at every numeric boundary; "
+                 "C05_extent_rule: the extent rule bounds every serialized length); the comparer checks implementation verdict = accept "
+                 "and that every rejection is an InvalidDefinitionError")
 TRUSTED = ["the renderer abstract definition -> DSDL text in harness/props/c05.py (one statement per line) and the PEG grammar are exercised, not modelled",
            "expression evaluation is abstracted to the value class of literals (bool, n/d, string, set); C04/C13 cover the evaluator"]
 ASSUMPTIONS = ["dependencies are valid leaf definitions (primitives and arrays only) with pairwise case-insensitively distinct names",
+               "a union has fewer than 2**64 variants (the tag-width check of UnionType is not modelled; no text can violate it)",
                "file names are rendered canonically (decimal numbers without leading zeros); file-name parsing is C15"]
 EXPLANATION = ("the theorem proves that the replay of the code's checks (accept) is equivalent to the declarative conjunction of the static rules "
                "(Valid) for all definitions of the abstract syntax; the correspondence compares the implementation's verdict with accept on "
